@@ -20,7 +20,7 @@ RULE = ("hostile matrices (14 classes: Gaussian, low rank, near-antiparallel dow
 ASSUMPTIONS = ["reference QP minimiser certified a posteriori by its duality gap (<= 1e-18 |w|^2) in float64",
                "cases with s / norm_eps in (0.5, 2) are not judged (decision threshold within rounding distance)",
                "float32: reg_eps >= 1e-5 (below the resolution of the dtype the QP is not positive definite: out of domain)"]
-N = {"quick": 9000, "thorough": 500000}
+N = {"quick": 9000, "thorough": 1500000}
 TAU = {"float64": 1e-9, "float32": 2e-4}
 
 
